@@ -705,14 +705,19 @@ static void beltCases(void)
 
 /* ================================================================== obj.h */
 /* Objects are built and decoded by this driver from the layout stated in obj.h (header obj_hdr_t, then the pointer table,
-   object pointers first), never through the library's own pointer-shifting code.  A pointer is logged as [kind, region, offset]:
-   kind 0 null, 1 into the top-level object under inspection (offset from its start), 2 into another known block (region >= 1),
-   3 anywhere else. */
+   object pointers first), never through the library's own pointer-shifting code.  Every address is logged as (block, offset)
+   of one of the blocks of the case (1, 2: the blocks holding the objects of the call, 3: an external object, 4: external data).
+   A pointer of an object's table is logged as [kind, block, offset]: kind 0 null; 1 "own": into the fragment of the object
+   that owns the table (offset from that object's start; obj.h: such references follow the object when it moves); 2 any other
+   address inside a known block (obj.h: "внешние ссылки остаются постоянными"); 3 anywhere else. */
 #define HS (sizeof(obj_hdr_t))
 #define PS (sizeof(void*))
 typedef struct { const octet* base; size_t len; } region_t;
 typedef struct { size_t o, n; } range_t;
 typedef struct { octet* base; size_t keep; range_t data[16]; size_t ndata; } built_t;
+#define NBLK 5
+static region_t g_blk[NBLK];
+static void blkSet(int i, const octet* base, size_t len) { g_blk[i].base = base; g_blk[i].len = len; }
 
 static void putHdr(octet* at, size_t keep, size_t pc, size_t oc) { obj_hdr_t h; h.keep = keep; h.p_count = pc; h.o_count = oc; memcpy(at, &h, HS); }
 static void getHdr(const octet* at, obj_hdr_t* h) { memcpy(h, at, HS); }
@@ -720,35 +725,45 @@ static void putPtr(octet* obj, size_t i, const void* p) { memcpy(obj + HS + i * 
 static const octet* getPtr(const octet* obj, size_t i) { const octet* p; memcpy(&p, obj + HS + i * PS, PS); return p; }
 static void addData(built_t* b, size_t o, size_t n) { b->data[b->ndata].o = o; b->data[b->ndata].n = n; ++b->ndata; vxRandBuf(b->base + o, n); }
 
-static void classify(const octet* p, const region_t* R, size_t nR, long long out[3])
+/* (block, offset) of an address; block 0 = not inside a known block */
+static void absAddr(const octet* p, long long out[2])
 {
-	size_t r;
-	out[0] = 3; out[1] = 0; out[2] = 0;
-	if (!p) { out[0] = 0; return; }
-	for (r = 0; r < nR; ++r)
-		if (R[r].base && p >= R[r].base && p < R[r].base + R[r].len)
+	int r;
+	out[0] = 0; out[1] = 0;
+	for (r = 1; r < NBLK; ++r)
+		if (g_blk[r].base && p >= g_blk[r].base && p < g_blk[r].base + g_blk[r].len)
 		{
-			out[0] = r == 0 ? 1 : 2; out[1] = (long long)r; out[2] = (long long)(p - R[r].base);
+			out[0] = r; out[1] = (long long)(p - g_blk[r].base);
 			return;
 		}
 }
+static void classify(const octet* p, const octet* owner, size_t owner_keep, long long out[3])
+{
+	long long a[2];
+	out[0] = 0; out[1] = 0; out[2] = 0;
+	if (!p) return;
+	if (owner && p >= owner && p < owner + owner_keep) { out[0] = 1; out[2] = (long long)(p - owner); return; }
+	absAddr(p, a);
+	out[0] = a[0] ? 2 : 3; out[1] = a[0]; out[2] = a[1];
+}
+static void jAt(const char* key, const octet* p) { long long a[2]; absAddr(p, a); jIntArr(key, a, 2); }
 /* the objects reachable from `top` through object pointers, depth first, each once */
-static void jNodes(const char* key, const octet* top, const region_t* R, size_t nR)
+static void jNodes(const char* key, const octet* top)
 {
 	const octet* todo[32]; const octet* seen[32]; size_t nt = 0, ns = 0, i, first = 1;
 	jSep(); fprintf(vx_out, "\"%s\":[", key);
 	todo[nt++] = top;
 	while (nt)
 	{
-		const octet* o = todo[--nt]; obj_hdr_t h; long long c[3]; int dup = 0, fits;
+		const octet* o = todo[--nt]; obj_hdr_t h; long long c[2]; int dup = 0, fits;
 		for (i = 0; i < ns; ++i) if (seen[i] == o) dup = 1;
 		if (dup || ns == 32) continue;
 		seen[ns++] = o;
-		classify(o, R, nR, c); getHdr(o, &h);
+		absAddr(o, c); getHdr(o, &h);
 		/* the table is decoded only if it lies inside the object and the object inside its block */
-		fits = h.o_count <= h.p_count && h.p_count < 64 && HS + PS * h.p_count <= h.keep && c[0] != 3 &&
-			(size_t)c[2] + h.keep <= R[c[1]].len;
-		fprintf(vx_out, "%s{\"r\":%lld,\"at\":%lld,\"keep\":%lld,\"pc\":%lld,\"oc\":%lld,\"ptrs\":[", first ? "" : ",", c[1], c[2],
+		fits = h.o_count <= h.p_count && h.p_count < 64 && HS + PS * h.p_count <= h.keep && c[0] != 0 &&
+			(size_t)c[1] + h.keep <= g_blk[c[0]].len;
+		fprintf(vx_out, "%s{\"b\":%lld,\"at\":%lld,\"keep\":%lld,\"pc\":%lld,\"oc\":%lld,\"ptrs\":[", first ? "" : ",", c[0], c[1],
 			(long long)h.keep, (long long)h.p_count, (long long)h.o_count);
 		first = 0;
 		if (fits)
@@ -757,7 +772,7 @@ static void jNodes(const char* key, const octet* top, const region_t* R, size_t 
 			for (i = 0; i < h.p_count; ++i)
 			{
 				const octet* p = getPtr(o, i); long long t[3];
-				classify(p, R, nR, t);
+				classify(p, o, h.keep, t);
 				fprintf(vx_out, "%s[%lld,%lld,%lld]", i ? "," : "", t[0], t[1], t[2]);
 				if (i < h.o_count && (t[0] == 1 || t[0] == 2)) kids[nk++] = p;
 			}
@@ -767,6 +782,7 @@ static void jNodes(const char* key, const octet* top, const region_t* R, size_t 
 	}
 	fputc(']', vx_out);
 }
+/* the plain-data octets of an object built by this driver (b2: a second object placed at `shift`) */
 static void jData(const char* key, const octet* base, const built_t* b, size_t shift, const built_t* b2)
 {
 	size_t i, j, first = 1;
@@ -784,6 +800,7 @@ static void extMake(void)
 	g_xd = xrand(XD_LEN);
 	g_xo_len = HS + 1 * PS + 8; g_xo = xrand(g_xo_len);
 	putHdr(g_xo, g_xo_len, 1, 0); putPtr(g_xo, 0, g_xo + HS + PS + 3);
+	blkSet(3, g_xo, g_xo_len); blkSet(4, g_xd, XD_LEN);
 }
 static void extFree(void) { xfree(g_xd, XD_LEN); xfree(g_xo, g_xo_len); }
 
@@ -812,7 +829,7 @@ static size_t shapeKeep(int shape, size_t d)
 	default: return HS;
 	}
 }
-/* builds the shape at b->base (b->keep octets); oslot0: what the first object pointer refers to, if it is to stay external */
+/* builds the shape at b->base (b->keep octets) */
 static void mkShape(built_t* b, int shape, size_t d)
 {
 	octet* o = b->base; size_t own;
@@ -828,7 +845,7 @@ static void mkShape(built_t* b, int shape, size_t d)
 		mkLeaf(b, own, 2, d);
 		putPtr(o, 0, o + own); putPtr(o, 1, d ? o + HS + 3 * PS + d / 2 : 0); putPtr(o, 2, g_xd);
 		break;
-	case 4:	/* outer -> mid -> inner; the inner object also points back into the outer's data */
+	case 4:	/* outer -> mid -> inner; the inner object also refers to the outer's data (outside its own fragment: stays put) */
 		own = HS + 2 * PS + d;
 		putHdr(o, b->keep, 2, 1); addData(b, HS + 2 * PS, d);
 		putHdr(o + own, 2 * own, 2, 1); addData(b, own + HS + 2 * PS, d);
@@ -851,6 +868,17 @@ static void mkBuilt(built_t* b, int shape, size_t d, size_t extra)
 	b->keep = shapeKeep(shape, d); b->base = xrand(b->keep + extra);
 	mkShape(b, shape, d);
 }
+static void jPtrs(const char* key, const octet* o, size_t pc, size_t keep, int via)
+{
+	size_t i; long long t[3];
+	jSep(); fprintf(vx_out, "\"%s\":[", key);
+	for (i = 0; i < pc; ++i)
+	{
+		classify(via == 0 ? getPtr(o, i) : via == 1 ? objPtr(o, i, octet) : objCPtr(o, i, octet), o, keep, t);
+		fprintf(vx_out, "%s[%lld,%lld,%lld]", i ? "," : "", t[0], t[1], t[2]);
+	}
+	fputc(']', vx_out);
+}
 
 static void objAccCases(void)
 {
@@ -859,26 +887,19 @@ static void objAccCases(void)
 	for (k = 0; k < 4; ++k)
 	{
 		size_t pc = pcs[k], oc = pc / 2, d = 8 * k + (k == 1 ? 5 : 0), keep = HS + pc * PS + d;
-		octet* o = xrand(keep); region_t R[3]; long long t[3];
+		octet* o = xrand(keep); long long t[3];
 		putHdr(o, keep, pc, oc);
 		for (i = 0; i < pc; ++i) putPtr(o, i, i % 3 == 0 ? o + HS + pc * PS + i : i % 3 == 1 ? g_xd + i : 0);
-		R[0].base = o; R[0].len = keep; R[1].base = 0; R[1].len = 0; R[2].base = g_xd; R[2].len = XD_LEN;
+		blkSet(1, o, keep); blkSet(2, 0, 0);
 		CLS("pc=%zu:oc=%zu:d=%zu", pc, oc, d);
 		head("objAcc"); JSZ("hs", HS); JSZ("ps", PS); JSZ("keep", keep); JSZ("pc", pc); JSZ("oc", oc);
 		JSZ("gkeep", objKeep(o)); JSZ("gpc", objPCount(o)); JSZ("goc", objOCount(o)); JSZ("gend", objEnd(o, octet) - o);
-		jSep(); fprintf(vx_out, "\"ptrs\":[");
-		for (i = 0; i < pc; ++i) { classify(getPtr(o, i), R, 3, t); fprintf(vx_out, "%s[%lld,%lld,%lld]", i ? "," : "", t[0], t[1], t[2]); }
-		fprintf(vx_out, "],\"gptrs\":[");
-		for (i = 0; i < pc; ++i) { classify(objPtr(o, i, octet), R, 3, t); fprintf(vx_out, "%s[%lld,%lld,%lld]", i ? "," : "", t[0], t[1], t[2]); }
-		fprintf(vx_out, "],\"gcptrs\":[");
-		for (i = 0; i < pc; ++i) { classify(objCPtr(o, i, octet), R, 3, t); fprintf(vx_out, "%s[%lld,%lld,%lld]", i ? "," : "", t[0], t[1], t[2]); }
-		fputc(']', vx_out);
-		/* objPtr is an lvalue: store through it, read back through the table */
+		jPtrs("ptrs", o, pc, keep, 0); jPtrs("gptrs", o, pc, keep, 1); jPtrs("gcptrs", o, pc, keep, 2);
 		if (pc)
-		{
-			classify(g_xd + 7, R, 3, t); jIntArr("store", t, 3);
+		{	/* objPtr is an lvalue: store through it, read back through the table */
+			classify(g_xd + 7, o, keep, t); jIntArr("store", t, 3);
 			objPtr(o, pc - 1, octet) = g_xd + 7;
-			classify(getPtr(o, pc - 1), R, 3, t); jIntArr("stored", t, 3);
+			classify(getPtr(o, pc - 1), o, keep, t); jIntArr("stored", t, 3);
 		}
 		jEnd();
 		xfree(o, keep);
@@ -895,8 +916,8 @@ static void objOperableCases(void)
 		int mut;
 		for (mut = 0; mut < 7; ++mut)
 		{
-			built_t b; region_t R[4]; obj_hdr_t h; octet* tgt; int r, r2;
-			size_t depth = mut < 1 ? 0 : mut < 4 ? 0 : 1 + (size_t)(mut - 4) / 2;
+			built_t b; obj_hdr_t h; octet* tgt; int r, r2;
+			size_t depth = mut < 4 ? 0 : 1 + (size_t)(mut - 4) / 2;
 			if ((shape == 6 && di) || (mut == 3 && shape >= 3 && shape != 6)) continue;
 			mkBuilt(&b, shape, DS[di], 0);
 			/* the object whose header is broken: the top one, or the one `depth` object pointers down */
@@ -921,22 +942,22 @@ static void objOperableCases(void)
 			case 4: case 6: putHdr(tgt, h.keep, h.p_count, h.p_count + 1); break;
 			default: putHdr(tgt, HS + PS * h.p_count - 1, h.p_count, h.o_count); break;
 			}
-			R[0].base = b.base; R[0].len = b.keep; R[1].base = 0; R[1].len = 0; R[2].base = g_xo; R[2].len = g_xo_len; R[3].base = g_xd; R[3].len = XD_LEN;
+			blkSet(1, b.base, b.keep); blkSet(2, 0, 0);
 			CLS("%s:d=%zu:%s", SHAPE[shape], DS[di], mut == 0 ? "asbuilt" : mut == 1 ? "top:oc>pc" : mut == 2 ? "top:keep<table" : mut == 3 ? "top:keep=table" :
 				mut == 4 ? "nested1:oc>pc" : mut == 5 ? "nested1:keep<table" : "nested2:oc>pc");
 			r = objIsOperable(b.base); r2 = objIsOperable2(b.base);
-			head("objIsOperable"); JSZ("hs", HS); JSZ("ps", PS); jNodes("nodes", b.base, R, 4); jInt("res", r); jInt("res2", r2); jEnd();
+			head("objIsOperable"); JSZ("hs", HS); JSZ("ps", PS); jNodes("nodes", b.base); jInt("res", r); jInt("res2", r2); jEnd();
 			xfree(b.base, b.keep);
 		}
 	}
 	{	/* an external referenced object that is not operable makes the referring object inoperable */
-		built_t b; region_t R[4]; int r, r2;
+		built_t b; int r, r2;
 		mkBuilt(&b, 5, 8, 0);
 		putHdr(g_xo, g_xo_len, 1, 2);
-		R[0].base = b.base; R[0].len = b.keep; R[1].base = 0; R[1].len = 0; R[2].base = g_xo; R[2].len = g_xo_len; R[3].base = g_xd; R[3].len = XD_LEN;
+		blkSet(1, b.base, b.keep); blkSet(2, 0, 0);
 		CLS("mixed:d=8:external:oc>pc");
 		r = objIsOperable(b.base); r2 = objIsOperable2(b.base);
-		head("objIsOperable"); JSZ("hs", HS); JSZ("ps", PS); jNodes("nodes", b.base, R, 4); jInt("res", r); jInt("res2", r2); jEnd();
+		head("objIsOperable"); JSZ("hs", HS); JSZ("ps", PS); jNodes("nodes", b.base); jInt("res", r); jInt("res2", r2); jEnd();
 		putHdr(g_xo, g_xo_len, 1, 0);
 		xfree(b.base, b.keep);
 	}
@@ -950,36 +971,30 @@ static void objCopyCases(int overlap)
 	{
 		int pl;
 		if ((shape == 6 && di) || (DS[di] == 5 && shape > 2)) continue;
-		/* placements of dest: a block of its own; the same arena: touching after / before, overlapping by +-8 and by half */
+		/* placements of dest: a block of its own; the same block: touching after / before, overlapping by +-8 and by half */
 		for (pl = overlap ? 3 : 0; pl < (overlap ? 7 : 3); ++pl)
 		{
-			built_t b; region_t R[4]; size_t keep = shapeKeep(shape, DS[di]); octet *arena = 0, *src, *dst; size_t alen = 0;
+			built_t b; size_t keep = shapeKeep(shape, DS[di]); octet *arena = 0, *src, *dst; size_t alen = 0;
 			long long delta = pl == 1 ? (long long)keep : pl == 2 ? -(long long)keep : pl == 3 ? 8 : pl == 4 ? -8 :
 				pl == 5 ? (long long)(keep / 2 / 8 * 8) : -(long long)(keep / 2 / 8 * 8);
 			if (pl >= 5 && (keep / 2 / 8 * 8 == 0 || keep / 2 / 8 * 8 == 8)) continue;
 			if (pl >= 3 && !THOROUGH && DS[di] == 24) continue;
 			b.keep = keep;
-			if (pl == 0) { src = xrand(keep); dst = xrand(keep); }
+			if (pl == 0) { src = xrand(keep); dst = xrand(keep); blkSet(1, src, keep); blkSet(2, dst, keep); }
 			else
 			{
 				alen = keep + (size_t)(delta < 0 ? -delta : delta); arena = xrand(alen);
 				src = delta > 0 ? arena : arena + (size_t)(-delta); dst = delta > 0 ? arena + (size_t)delta : arena;
+				blkSet(1, arena, alen); blkSet(2, 0, 0);
 			}
 			b.base = src; mkShape(&b, shape, DS[di]);
 			CLS("%s:d=%zu:%s", SHAPE[shape], DS[di], pl == 0 ? "sep" : pl == 1 ? "touch-after" : pl == 2 ? "touch-before" : pl == 3 ? "overlap+8" :
 				pl == 4 ? "overlap-8" : pl == 5 ? "overlap+half" : "overlap-half");
-			head("objCopy"); JSZ("hs", HS); JSZ("ps", PS); JSZ("delta", pl == 0 ? 0 : delta); JSZ("keep", keep);
-			R[0].base = src; R[0].len = keep; R[1].base = dst; R[1].len = pl == 0 || pl == 1 || pl == 2 ? keep : 0;
-			R[2].base = g_xo; R[2].len = g_xo_len; R[3].base = g_xd; R[3].len = XD_LEN;
-			jNodes("src", src, R, 4); jData("srcimg", src, &b, 0, 0);
+			head("objCopy"); JSZ("hs", HS); JSZ("ps", PS); JSZ("keep", keep); jAt("sat", src); jAt("dat", dst);
+			jNodes("src", src); jData("srcimg", src, &b, 0, 0);
 			objCopy(dst, src);
-			R[0].base = dst; R[0].len = keep; R[1].base = src; R[1].len = keep;
-			jNodes("dst", dst, R, 4); jData("dstimg", dst, &b, 0, 0);
-			if (pl < 3)
-			{	/* the source is left as it was */
-				R[0].base = src; R[0].len = keep; R[1].base = dst; R[1].len = keep;
-				jNodes("src2", src, R, 4); jData("src2img", src, &b, 0, 0);
-			}
+			jNodes("dst", dst); jData("dstimg", dst, &b, 0, 0);
+			if (pl < 3) { jNodes("src2", src); jData("src2img", src, &b, 0, 0); }		/* the source is left as it was */
 			jEnd();
 			if (pl == 0) { xfree(src, keep); xfree(dst, keep); } else xfree(arena, alen);
 		}
@@ -988,7 +1003,7 @@ static void objCopyCases(int overlap)
 
 static void objAppendCases(void)
 {
-	/* containers: nest1-like objects whose slot i refers to the object to be appended (as the library's callers do);
+	/* containers: objects whose slot i refers to the object to be appended (as the library's callers do);
 	   the container's block has exactly keep(dest) + keep(src) octets */
 	int cshape, sshape; size_t di;
 	static const size_t DS[] = { 0, 8, 5 };
@@ -999,37 +1014,33 @@ static void objAppendCases(void)
 		if (!THOROUGH && cshape == 4 && di == 1) continue;
 		for (slot = 0; slot < nslot; ++slot)
 		{
-			built_t d, s; region_t R[4]; size_t dd = DS[di] == 5 ? 8 : DS[di];
+			built_t d, s; size_t dd = DS[di] == 5 ? 8 : DS[di];
 			mkBuilt(&s, sshape, DS[di], 0);
 			mkBuilt(&d, cshape, dd, s.keep);
 			putPtr(d.base, slot, s.base);		/* before the call the slot refers to the (external) object that is about to be appended */
+			blkSet(1, d.base, d.keep + s.keep); blkSet(2, s.base, s.keep);
 			CLS("%s<-%s:d=%zu:slot=%zu", SHAPE[cshape], SHAPE[sshape], DS[di], slot);
-			head("objAppend"); JSZ("hs", HS); JSZ("ps", PS); JSZ("i", slot);
-			R[0].base = d.base; R[0].len = d.keep; R[1].base = s.base; R[1].len = s.keep; R[2].base = g_xo; R[2].len = g_xo_len; R[3].base = g_xd; R[3].len = XD_LEN;
-			jNodes("d", d.base, R, 4); jData("dimg", d.base, &d, 0, 0);
-			R[0].base = s.base; R[0].len = s.keep; R[1].base = 0; R[1].len = 0;
-			jNodes("s", s.base, R, 4); jData("simg", s.base, &s, 0, 0);
+			head("objAppend"); JSZ("hs", HS); JSZ("ps", PS); JSZ("i", slot); jAt("dat", d.base); jAt("sat", s.base);
+			jNodes("d", d.base); jData("dimg", d.base, &d, 0, 0);
+			jNodes("s", s.base); jData("simg", s.base, &s, 0, 0);
 			objAppend(d.base, s.base, slot);
-			R[0].base = d.base; R[0].len = d.keep + s.keep; R[1].base = s.base; R[1].len = s.keep;
-			jNodes("d2", d.base, R, 4); jData("d2img", d.base, &d, d.keep, &s);
-			R[0].base = s.base; R[0].len = s.keep; R[1].base = 0; R[1].len = 0;
-			jNodes("s2", s.base, R, 4); jData("s2img", s.base, &s, 0, 0);
+			jNodes("d2", d.base); jData("d2img", d.base, &d, d.keep, &s);
+			jNodes("s2", s.base); jData("s2img", s.base, &s, 0, 0);
 			jEnd();
 			xfree(s.base, s.keep); xfree(d.base, d.keep + s.keep);
 		}
 	}
 	for (di = 0; di < 2; ++di)
 	{	/* an object appended to itself (its slot refers to a nested object of its own before the call) */
-		built_t d; region_t R[4]; size_t k0;
+		built_t d; size_t k0;
 		mkBuilt(&d, 3, DS[di], shapeKeep(3, DS[di])); k0 = d.keep;
+		blkSet(1, d.base, 2 * k0); blkSet(2, 0, 0);
 		CLS("nest1<-itself:d=%zu", DS[di]);
-		head("objAppend"); JSZ("hs", HS); JSZ("ps", PS); JSZ("i", 0); jInt("self", 1);
-		R[0].base = d.base; R[0].len = k0; R[1].base = 0; R[1].len = 0; R[2].base = g_xo; R[2].len = g_xo_len; R[3].base = g_xd; R[3].len = XD_LEN;
-		jNodes("d", d.base, R, 4); jData("dimg", d.base, &d, 0, 0);
-		jNodes("s", d.base, R, 4); jData("simg", d.base, &d, 0, 0);
+		head("objAppend"); JSZ("hs", HS); JSZ("ps", PS); JSZ("i", 0); jAt("dat", d.base); jAt("sat", d.base);
+		jNodes("d", d.base); jData("dimg", d.base, &d, 0, 0);
+		jNodes("s", d.base); jData("simg", d.base, &d, 0, 0);
 		objAppend(d.base, d.base, 0);
-		R[0].len = 2 * k0;
-		jNodes("d2", d.base, R, 4); jData("d2img", d.base, &d, k0, &d);
+		jNodes("d2", d.base); jData("d2img", d.base, &d, k0, &d);
 		jEnd();
 		xfree(d.base, 2 * k0);
 	}
